@@ -422,7 +422,10 @@ class BaseModel(SolverMixin, ModelInterface):
             if iteration < min_iter:
                 continue
 
-            diff = current_values - previous_values
+            # The difference of two finite values may overflow: keep that out
+            # of reach of the caller's own warnings filters
+            with np.errstate(over='ignore', invalid='ignore'):
+                diff = current_values - previous_values
 
             if np.all(np.abs(diff) < tol):
                 with warnings.catch_warnings(record=True) as w:  # noqa: F841
